@@ -384,10 +384,10 @@ func (g *gen) record(key string, times *timeGen) KVSpec {
 		k.Content, k.Body, k.Desc = "map", withMagic(m.b), d
 	case x < 93:
 		m, d := g.body()
-		k.Content, k.Body, k.Desc = "noprefix", m.b, "noprefix " + d
+		k.Content, k.Body, k.Desc = "noprefix", m.b, "noprefix "+d
 	case x < 95:
 		a := mvArr(mvFix(5), mvStr("x"))
-		k.Content, k.Body, k.Desc = "nonmap", withMagic(a.b), "nonmap " + a.d
+		k.Content, k.Body, k.Desc = "nonmap", withMagic(a.b), "nonmap "+a.d
 	case x < 97:
 		k.Content, k.Body, k.Desc = "garbage", withMagic([]byte{0x85, 0xa1, 'a', 0xc1, 0xff}), "garbage"
 	default:
